@@ -326,11 +326,8 @@ def ensure_sig_low_s(sig_: bytes) -> bytes:
     if s_val > bits.ecmath.SECP256K1_N // 2 or s_val < 1:
         # s_val = SECP256K1_N - s_val
         s_val = bits.ecmath.sub_mod_p(0, s_val, p=bits.ecmath.SECP256K1_N)
-        parsed[0][2][1][2] = s_val.to_bytes(32, "big")
-        parsed[0][2][1][1] = 32
-        parsed[0][1] = 32 + r_len + 4
-        encoded = bits.pem.encode_parsed_asn1(parsed[0])
-        return encoded
+        r_val = int.from_bytes(parsed[0][2][0][2], "big")
+        return der_encode_sig(r_val, s_val)
     return sig_
 
 
